@@ -111,6 +111,41 @@ func VH_slice_EditScript() {
 	for i := range rhs {
 		vAssert(rhs[i] == r0[i], "rhs not modified")
 	}
+	// a script already returned is not disturbed by later calls
+	type snap struct {
+		op     EditOp
+		nx, ny int
+	}
+	var before []snap
+	for _, e := range es {
+		before = append(before, snap{e.Op, len(e.X), len(e.Y)})
+	}
+	other := EditScript([]int{7, 8, 9, 7}, []int{8, 7, 7, 9, 1})
+	vAssert(len(other) > 0, "unrelated script")
+	vAssert(len(EditScript([]int{5}, []int{5})) == 0, "unrelated script of equal inputs")
+	vAssert(len(es) == len(before), "an earlier script keeps its length after later calls")
+	for i, e := range es {
+		vAssert(e.Op == before[i].op && len(e.X) == before[i].nx && len(e.Y) == before[i].ny, "an earlier script is not disturbed by later calls")
+		if e.Op == OpCopy || e.Op == OpReplace {
+			vAssert(vSpanInside(e.Y, rhs), "an earlier script still refers to its own rhs")
+		}
+		if e.Op != OpCopy {
+			vAssert(vSpanInside(e.X, lhs), "an earlier script still refers to its own lhs")
+		}
+	}
+}
+
+// vSpanInside reports whether x is a sub-slice of base's storage.
+func vSpanInside(x, base []int) bool {
+	if len(x) == 0 {
+		return true
+	}
+	for i := range base {
+		if &base[i] == &x[0] {
+			return i+len(x) <= len(base)
+		}
+	}
+	return false
 }
 
 // vIsSubseq reports whether sub is a subsequence of s (greedy; forks on equalities).
@@ -127,6 +162,14 @@ func vIsSubseq(sub, s []int) bool {
 func VH_slice_LCS() {
 	nl, nr := vCase("nl"), vCase("nr")
 	a, b := vMkInts(nl), vMkInts(nr)
+	if vCase("alias") == 1 {
+		// two views of one array starting at the same element (a snapshot and a truncation)
+		if nr <= nl {
+			b = a[:nr]
+		} else {
+			a = b[:nl]
+		}
+	}
 	a0 := append([]int{}, a...)
 	b0 := append([]int{}, b...)
 	var got []int
